@@ -275,6 +275,7 @@ def run(cx):
     # ---- C04-BIND (shared with C08): the IR carries what the call supplied ------------------------
     from . import c08
     c08.bind_rule(cx, "C04-BIND", "C04-MAP", only=("Led", "RGBLed", "Servo", "DCMotor"), floor=100)
+    c08.rule_field_flow(cx, "C04-FIELDS", devices=("Led", "RGBLed", "Servo", "DCMotor"))
 
     # ---- C04-GETTER --------------------------------------------------------------------------
     r = cx.rule("C04-GETTER", "each state-query expression produced by the parser names exactly the shadow variable the emitter maintains for that device, with a compatible C++ type", floor=10)
